@@ -1,6 +1,7 @@
 import WfProofs.IterUtilsDspThm
 import WfProofs.IterUtilsProgress
 import WfProofs.IterDebounce
+import WfProofs.IterUtilsMergeExt
 /-!
 # C29 — stream merge and sorted-prefix utilities preserve items and order
 
@@ -172,6 +173,107 @@ theorem C29_error_countdown (m : Merge α) (e : Nat) (i : Nat) (rest : List (Nat
 example : ∃ m : Merge Nat, (Merge.init false 3).exec [.prod 0 7, .prod 1 8, .err 2 5, .batch [0, 1, 2]] = some m
     ∧ m.exc = some 5 ∧ m.phase = .suspended 0 [(1, 8)] :=
   ⟨_, rfl, rfl, rfl⟩
+
+/-! ## merge_generators: where every produced item is, at every moment -/
+
+/-- **Accounting, for every reachable state** (either flag, any number of sources, errors or not): the
+    sequence of source `i` is, in this order, what was yielded from it, then what sits in
+    `completed_results` waiting for its `yield`, then what the `stop_on_first_completion` break discarded,
+    then the value of its finished task that has not been looked at.  So every produced item is in exactly
+    one of these four places, none is duplicated and none invented, at every point of every execution. -/
+theorem C29_merge_accounting (sf : Bool) (n : Nat) (acts : List (Act α)) (m : Merge α)
+    (h : (Merge.init sf n).exec acts = some m) (i : Nat) :
+    proj i m.out ++ proj i m.phase.rest ++ proj i m.dropped ++ slotItem m.slots[i]? = C29_sourceSeq i acts
+    ∧ (m.stopped = false → m.dropped = []) := by
+  have hi := exec_inv (init_inv sf n) acts h
+  have hf := (exec_fields acts h).1
+  refine ⟨?_, hi.dropNil⟩
+  rw [hi.conserve i, hf]
+  simp [C29_sourceSeq, Merge.init]
+
+example : ∃ m : Merge Nat,
+    (Merge.init true 3).exec [.prod 0 7, .prod 1 8, .batch [1, 0], .prod 2 5] = some m
+    ∧ m.out = [(1, 8)] ∧ m.phase.rest = [(0, 7)] ∧ slotItem m.slots[2]? = [5] :=
+  ⟨_, rfl, rfl, rfl, rfl⟩
+
+/-- **Back-pressure: no source ever runs more than one item ahead of the consumer.**  In every reachable
+    state that has not stopped on a first completion, the items source `i` has produced are the items
+    yielded from it plus at most ONE more (collected and waiting for its `yield`, or sitting in its finished
+    task — never both): `merge_generators` holds one task per source and starts the next `anext` only after
+    the previous value was handed over. -/
+theorem C29_merge_lag_le_one (sf : Bool) (n : Nat) (acts : List (Act α)) (m : Merge α)
+    (h : (Merge.init sf n).exec acts = some m) (hst : m.stopped = false) (i : Nat) :
+    (C29_sourceSeq i acts).length ≤ (proj i m.out).length + 1
+    ∧ (proj i m.phase.rest).length + (slotItem m.slots[i]?).length ≤ 1 := by
+  have hi := exec_inv (init_inv sf n) acts h
+  have hx := exec_xinv (init_inv sf n) (init_xinv sf n) acts h
+  have hl := lag_of_inv hx i
+  refine ⟨?_, hl⟩
+  have hacc := (C29_merge_accounting sf n acts m h i).1
+  rw [hi.dropNil hst] at hacc
+  rw [← hacc]
+  simp only [proj_nil, List.append_nil, List.length_append]
+  omega
+
+example : ∃ m : Merge Nat,
+    (Merge.init false 2).exec [.prod 0 7, .prod 1 8, .batch [1, 0], .resume, .prod 1 9] = some m
+    ∧ (C29_sourceSeq 1 [.prod 0 7, .prod 1 8, .batch [1, 0], .resume, .prod 1 9]).length = 2
+    ∧ (proj 1 m.out).length = 1 ∧ m.stopped = false :=
+  ⟨_, rfl, rfl, rfl, rfl⟩
+
+/-- **`stop_on_first_completion=True`.**  For every execution with the flag set and at least one source:
+    the merge returns normally only by stopping on a completion, and then some source really has ended;
+    once it has stopped it never yields again (it is finished); results are discarded only by that stop;
+    and no slot is ever retired (`gone`) — with the flag an ended source always stops the merge. -/
+theorem C29_merge_stop_on_first_completion (n : Nat) (acts : List (Act α)) (m : Merge α)
+    (h : (Merge.init true n).exec acts = some m) :
+    (0 < n → m.phase = .finished none → m.stopped = true ∧ ∃ i, i ∈ acts.filterMap Act.finOf)
+    ∧ (m.stopped = true → ∃ r, m.phase = .finished r)
+    ∧ (m.dropped ≠ [] → m.stopped = true)
+    ∧ (∀ i : Nat, m.slots[i]? ≠ some Slot.gone) := by
+  have hi := exec_inv (init_inv true n) acts h
+  have hx := exec_xinv (init_inv true n) (init_xinv true n) acts h
+  obtain ⟨_, _, hends, hsf, hlen⟩ := exec_fields acts h
+  have hsf' : m.stopFirst = true := by rw [hsf]; rfl
+  have hgone : ∀ i : Nat, m.slots[i]? ≠ some Slot.gone := by
+    intro i hg
+    have := hx.goneFlag i hg
+    rw [hsf'] at this; cases this
+  refine ⟨?_, hi.stopFin, ?_, hgone⟩
+  · intro hn hp
+    have hstop : m.stopped = true := by
+      cases hs : m.stopped with
+      | true => rfl
+      | false =>
+        exfalso
+        have hlen' : 0 < m.slots.length := by rw [hlen]; simpa [Merge.init] using hn
+        have h0 : m.slots[0]? = some m.slots[0] := List.getElem?_eq_getElem hlen'
+        have ht := hi.finClean hp hs m.slots[0] (List.getElem_mem hlen')
+        cases hsl : m.slots[0] with
+        | idle =>
+          rw [hsl] at h0
+          rcases hi.idle 0 h0 with h1 | ⟨j, r, h2, _⟩
+          · rw [hs] at h1; cases h1
+          · rw [hp] at h2; cases h2
+        | gone => rw [hsl] at h0; exact hgone 0 h0
+        | pending => rw [hsl] at ht; simp [Slot.hasTask] at ht
+        | item v => rw [hsl] at ht; simp [Slot.hasTask] at ht
+        | ended => rw [hsl] at ht; simp [Slot.hasTask] at ht
+        | failed e => rw [hsl] at ht; simp [Slot.hasTask] at ht
+    refine ⟨hstop, ?_⟩
+    obtain ⟨i, hie⟩ := hx.stopEnded hstop
+    have := hi.core.endSlot i (Or.inl hie)
+    rw [hends] at this
+    exact ⟨i, by simpa [Merge.init] using this⟩
+  · intro hd
+    cases hs : m.stopped with
+    | true => rfl
+    | false => exact absurd (hi.dropNil hs) hd
+
+example : ∃ m : Merge Nat,
+    (Merge.init true 2).exec [.prod 0 7, .fin 1, .batch [0, 1]] = some m
+    ∧ m.phase = .finished none ∧ m.stopped = true ∧ m.dropped = [(0, 7)] ∧ m.out = [] :=
+  ⟨_, rfl, rfl, rfl, rfl, rfl⟩
 
 /-! ## list.sort(key=key) -/
 
